@@ -235,7 +235,7 @@ func init() {
 		ID: "C08", Level: "exploration",
 		Rule: "case = one (program, parameter variant {default, prune, GMW, GMW+prune}): shipped test programs and examples that import library packages, three fixtures importing 5 packages each with package-level constants, and generated programs. " +
 			"The triple (sha256 of Circuit.Marshal, sha256 of the SSA listing, I/O description) is collected from: k fresh Compiler instances, one instance reused after a PRNG-chosen history of other compilations including failed ones (the same and another program with an undefined name at the end of main, or a syntax error), 4 goroutines compiling concurrently, and m separate OS processes (Go randomises every map iteration per process and per range statement). " +
-			"Oracle: exactly one distinct triple. quick: 6 in-process + 4 concurrent + 2 processes; thorough: 12 + 8 + 6. Distinct = hash(program, variant); non-trivial = it compiled.",
+			"Also (every 8th generated-program slot) the command line tool as OS processes: one evaluator process serving 4-7 garbler sessions of a program with unsized arguments whose garbler input size follows a PRNG walk (repeats, the evaluator's own size right after a different one): every session must succeed and both processes must print the program's value. Oracle: exactly one distinct triple. quick: 6 in-process + 4 concurrent + 2 processes; thorough: 12 + 8 + 6. Distinct = hash(program, variant); non-trivial = it compiled.",
 		Assumptions: []string{"directory order of the file system cannot be varied in this sandbox"},
 		NumCases: func(t string) int {
 			n := len(c08Programs())
@@ -259,6 +259,9 @@ func runC08(cs *vrt.Case) {
 		p, variant = progs[cs.Idx/4], cs.Idx%4
 	case !cs.Thorough() && cs.Idx < len(progs):
 		p, variant = progs[cs.Idx], cs.Idx%4
+	case cs.Idx%8 == 7:
+		c08CLI(cs, r)
+		return
 	default:
 		g := mpclgen.Generate(r, mpclgen.Config{Arrays: true, Structs: true, Funcs: true, Loops: true, Division: true, Mult: true, NoConst: true})
 		p = c08Program{name: "generated", src: g.Src}
